@@ -410,7 +410,10 @@ COQKEY = {"int": "TInt", "float": "TFloat", "bool": "TBool", "Pt": 'TOpaque "Pt"
 
 
 def keys_of(coq_term: str) -> set:
-    return {k for k, c in COQKEY.items() if c in coq_term} | ({"str"} if "TStr" in coq_term else set())
+    ks = {k for k, c in COQKEY.items() if c in coq_term} | ({"str"} if "TStr" in coq_term else set())
+    if "TEnum true" in coq_term:      # the serializer applies a strategy to a Literal member by the member's own type
+        ks |= ({"int"} if "JInt" in coq_term else set()) | ({"bool"} if "JBool" in coq_term else set())
+    return ks
 
 
 def m_tables(r):
